@@ -187,6 +187,12 @@ def run_case(case, acc):
                     f.write(fobj.getvalue())
             except Exception as e:
                 return [viol(case['fam'], 'in-memory-file-object-unusable-after-dump', dict(case, error=repr(e)))]
+            # the object just filled, handed to load_from_file as it is (its position is at the end of what was written)
+            r = RawSink()
+            r.subscribe_to(rsparquet.load_from_file(fobj, batch_size=2))
+            acc.evals += 1
+            if r.error is not None or r.completed != 1 or classify(rows, r.items):
+                return [viol(case['fam'], 'file-object-just-written-not-loadable', dict(case, error=repr(r.error), loaded=len(r.items)))]
         elif fobj is not None:
             fobj.close()
         elif n <= 4:
